@@ -22,6 +22,7 @@ import sys, datetime
 OBJS = []
 ROWS = []
 FORIN = []
+PROBES = []
 SEEN_OBJ = {}
 SEEN_ROW = {}
 
@@ -148,6 +149,12 @@ def absent(owner, name, clause):
 
 def element(owner, name, v, attrs, clause):
     row(owner, name, 'element', attrs=attrs, v=val(v), clause=clause)
+
+
+def probe(id, js, exp, clause):
+    """a behaviour of a listed object (F = the object) that distinguishes WHAT KIND of object it is; the text
+    restores whatever it changes"""
+    PROBES.append(dict(id=id, call=js, callexp=exp if isinstance(exp, Raw) else val(exp), clause=clause))
 
 
 def forin(id, js, note):
@@ -526,6 +533,60 @@ fn('JSON', 'parse', 2, "F('[1,[2,3]]')[1][1]", 3, '15.12.2')
 fn('JSON', 'stringify', 3, "F([1, [2, null], true, 'x'].slice(0, 3))", '[1,[2,null],true]', '15.12.3')
 
 # ---------------------------------------------------------------------------------------------
+# Prototype objects that are themselves instances of their class: what distinguishes the KIND of object,
+# beyond [[Class]] and the initial property values
+# ---------------------------------------------------------------------------------------------
+# 15.4.4 "The Array prototype object is itself an array": the [[DefineOwnProperty]] of 15.4.5.1.
+#  step 4: writing an array index >= length sets length to index + 1;  step 3: writing a smaller length deletes the
+#  elements at and above it;  step 3.c: a length that is not a uint32 throws a RangeError
+probe('Array.prototype',
+      "var r = []; F[3] = 'x'; r.push(F.length); F.length = 1; r.push(3 in F, F.length); F.length = 0; r.push(F.length); "
+      "delete F[3]; r.push(Object.getOwnPropertyNames(F).indexOf('3')); r.join('|')",
+      '4|false|1|0|-1', '15.4.4 / 15.4.5.1 steps 3, 4')
+probe('Array.prototype',
+      "var t = T(function(){ F.length = -1 }); F.length = 0; t + '|' + F.length + '|' + Array.isArray(F) + '|' + [1].concat(F).length",
+      'RangeError|0|true|1', '15.4.4 / 15.4.5.1 step 3.c / 15.4.3.2 / 15.4.4.4 step 5.b')
+probe('Array.prototype', "var n = F.push('a', 'b'); var r = n + '|' + F.length + '|' + F.join(); F.pop(); F.pop(); r + '|' + F.length + '|' + (0 in F)",
+      '2|2|a,b|0|false', '15.4.4 / 15.4.4.7 / 15.4.4.6')
+# 15.5.4 "The String prototype object is itself a String object whose value is an empty String": 15.5.5.1 length,
+# 15.5.5.2 [[GetOwnProperty]] (no index property), 15.5.4.2/3 accept it as this value
+probe('String.prototype',
+      "F.length = 5; F.length + '|[' + F.charAt(0) + ']|' + (F[0] === undefined) + '|[' + F.toString() + ']|[' + F.valueOf() + ']|' + "
+      "Object.getOwnPropertyNames(F).indexOf('0') + '|' + (F + 'x') + '|' + (F == '')",
+      '0|[]|true|[]|[]|-1|x|true', '15.5.4 / 15.5.5.1 / 15.5.5.2')
+# 15.6.4 "a Boolean object whose value is false"
+probe('Boolean.prototype', "F.valueOf() + '|' + typeof F.valueOf() + '|' + F.toString() + '|' + (F == false) + '|' + !!F",
+      'false|boolean|false|true|true', '15.6.4')
+# 15.7.4 "a Number object whose value is +0"
+probe('Number.prototype', "S(F.valueOf()) + '|' + typeof F.valueOf() + '|' + F.toString() + '|' + F.toFixed(1) + '|' + (1 / F.valueOf() > 0) + '|' + (F + 1)",
+      '0|number|0|0.0|true|1', '15.7.4')
+# 15.9.5 "a Date object whose time value is NaN"
+probe('Date.prototype', "S(F.getTime()) + '|' + S(F.valueOf()) + '|' + S(F.getUTCFullYear()) + '|' + S(F.getTimezoneOffset()) + '|' + T(function(){ F.toISOString() })",
+      dev('D12g_date_prototype_time_value_is_zero', val('0|0|1970|-330|no'), val('NaN|NaN|NaN|NaN|RangeError')), '15.9.5 / 15.9.5.43')
+# 15.10.6 "a regular expression object ... as if created by new RegExp()": data properties of 15.10.7
+probe('RegExp.prototype', "F.global + '|' + F.ignoreCase + '|' + F.multiline + '|' + F.lastIndex + '|' + typeof F.source",
+      dev(RXD, val('undefined|undefined|undefined|undefined|undefined'), val('false|false|false|0|string')), '15.10.6 / 15.10.7')
+probe('RegExp.prototype', "var m = F.exec('ab'); m.index + '|' + m.length + '|[' + m[0] + ']|' + 'ab'.replace(F, '-') + '|' + 'ab'.split(F).length",
+      '0|1|[]|-ab|2', '15.10.6 / 15.10.6.2 / 15.5.4.11 / 15.5.4.14')
+# 15.3.4 "itself a Function object that, when invoked, accepts any arguments and returns undefined"; length 0
+probe('Function.prototype',
+      "typeof F + '|' + (F() === undefined) + '|' + (F(1, 2, 3) === undefined) + '|' + (F.call({}, 1) === undefined) + '|' + "
+      "(F.apply(null, [1]) === undefined) + '|' + F.length + '|' + (typeof F.bind({}) === 'function')",
+      'function|true|true|true|true|0|true', '15.3.4')
+# 15.11.4 "itself an Error object": name, message (15.11.4.2, 15.11.4.3), toString on itself
+probe('Error.prototype', "F.name + '|[' + F.message + ']|' + F.toString() + '|' + (new Error().name === F.name) + '|' + (new Error().message === F.message)",
+      'Error|[]|Error|true|true', '15.11.4')
+for n in ['EvalError', 'RangeError', 'ReferenceError', 'SyntaxError', 'TypeError', 'URIError']:
+    probe(n + '.prototype', "F.name + '|[' + F.message + ']|' + F.toString() + '|' + (F instanceof Error) + '|' + new %s('m').toString()" % n,
+          '%s|[]|%s|true|%s: m' % (n, n, n), '15.11.7.7 - 15.11.7.10')
+# 15.2.4 the Object prototype object: an ordinary extensible object without prototype
+probe('Object.prototype', "F.zzProbe = 1; ({}).zzProbe + '|' + delete F.zzProbe + '|' + ('zzProbe' in {}) + '|' + F.toString() + '|' + (F.valueOf() === F)",
+      '1|true|false|[object Object]|true', '15.2.4')
+# 15.8, 15.12: Math and JSON are not functions
+probe('Math', "T(function(){ F() }) + '|' + T(function(){ new F() }) + '|' + typeof F", 'TypeError|TypeError|object', '15.8')
+probe('JSON', "T(function(){ F() }) + '|' + T(function(){ new F() }) + '|' + typeof F", 'TypeError|TypeError|object', '15.12')
+
+# ---------------------------------------------------------------------------------------------
 # Instances (15.x.5, 13.2, 10.6): objects created by the dynamic paths of the implementation
 # ---------------------------------------------------------------------------------------------
 I = 'inst'
@@ -714,12 +775,16 @@ def main():
     w(',\n'.join('  ' + rec(r, rk) for r in ROWS))
     w('>>')
     w('')
+    w('Probes == <<')
+    w(',\n'.join('  ' + rec(f, ['id', 'call', 'callexp', 'clause']) for f in PROBES))
+    w('>>')
+    w('')
     w('ForIns == <<')
     w(',\n'.join('  ' + rec(f, ['id', 'js', 'note']) for f in FORIN))
     w('>>')
     w('=============================================================================')
     sys.stdout.write('\n'.join(out) + '\n')
-    sys.stderr.write('objects %d rows %d forin %d\n' % (len(OBJS), len(ROWS), len(FORIN)))
+    sys.stderr.write('objects %d rows %d forin %d probes %d\n' % (len(OBJS), len(ROWS), len(FORIN), len(PROBES)))
 
 
 main()
